@@ -16,6 +16,7 @@ RULE = ("(a) generated evaluation histories (single point, batch, empty batch, b
         "(class, dimension, digest of op kinds / box); non-trivial = history with >=1 batch and >=1 repeated point, or integral "
         "over a box that is not the unit cube / is cut by a kink")
 RULE += (" " + 'Evaluation points include coordinates exactly on the declared break points of the class (borders / mid points).')
+RULE += (" In a third of the calls the caller then modifies the returned array in place (the result belongs to the caller; the cache must not alias it).")
 REQUIRED = ["value_single", "value_batch", "shape_single", "shape_batch", "empty_batch", "value_vectorized", "counter",
             "analytic_integral", "nocache_single", "cache_coherence_after_run"]
 MIN_NONTRIVIAL = {"quick": 300, "thorough": 3000}
@@ -219,6 +220,12 @@ def run_history(case, res):
                       "%s: f(point) has shape %s, expected (%d,)" % (name, getattr(v, "shape", None), ol), ctx)
             res.check("value_single", _rel_close(v, truth(p)), "C12_value_single",
                       "%s: f(point) differs from a fresh eval at %s: %s vs %s" % (name, p, v, truth(p)), ctx)
+            if isinstance(v, np.ndarray) and rng.random() < 0.35:
+                # the caller owns what it got: in-place arithmetic on the result must not reach the cache
+                v *= -3.0
+                v += 7.0
+                kinds.append("mutate_single_result")
+                res.count("caller_mutated_result")
         elif r < 0.55:
             n = rng.choice([1, 2, 3, 5, 9])
             batch = [gen_point(rng, d, dom, pool) for _ in range(n)]
@@ -234,6 +241,11 @@ def run_history(case, res):
             exp = np.array([truth(p) for p in batch])
             res.check("value_batch", _rel_close(v, exp), "C12_value_batch",
                       "%s: f(batch) differs from fresh evals" % name, dict(ctx, observed=v, expected=exp, batch=batch))
+            if isinstance(v, np.ndarray) and rng.random() < 0.35:
+                v *= -3.0
+                v += 7.0
+                kinds.append("mutate_batch_result")
+                res.count("caller_mutated_result")
         elif r < 0.62:
             kinds.append("empty")
             try:
